@@ -38,6 +38,8 @@ Definition field (fs : list N) (i : nat) (va : N) : N := bits (lo fs i) (nth i f
 Inductive dec :=
 | DTable (a : aspace) (base : N)     (* next-lower table (level 1: the page) starts at [base] *)
 | DLeaf (base sz : N)                (* maps the naturally aligned 2^sz-byte region to [base] *)
+| DHugeDir (a : aspace) (base sh : N) (* the region of this entry is cut into 2^sh-byte huge pages
+                                         whose last-level-format entries form a table at [base] *)
 | DNotPresent
 | DInvalid.
 
@@ -85,6 +87,17 @@ Fixpoint arch_levels (lvl : nat) (tas : aspace) (tbase : N) : outcome :=
       match af_decode af tgt fs lvl pte va with
       | DTable a b => arch_levels l a b
       | DLeaf b sz => (OK, Some (tgt, w (b + va mod 2^sz)))
+      | DHugeDir a b sh =>
+        let roff := va mod 2^(lo fs lvl) in          (* offset inside this entry's region *)
+        match rd_entry a (w (b + roff / 2^sh * af_ptesz af)) with
+        | RdErr e => (e, None)
+        | RdOk hpte =>
+          match af_decode af tgt fs 1 hpte va with
+          | DTable _ pb | DLeaf pb _ => (OK, Some (tgt, w (pb + roff mod 2^sh)))
+          | DNotPresent => (NOTPRESENT, None)
+          | DInvalid | DHugeDir _ _ _ => (INVALID, None)
+          end
+        end
       | DNotPresent => (NOTPRESENT, None)
       | DInvalid => (INVALID, None)
       end
@@ -242,6 +255,32 @@ Definition dec_pfn (tgt : aspace) (fs : list N) (lvl : nat) (e va : N) : dec :=
 Definition af_pfn32 := {| af_ptesz := 4; af_check := Unsigned; af_decode := dec_pfn |}.
 Definition af_pfn64 := {| af_ptesz := 8; af_check := Unsigned; af_decode := dec_pfn |}.
 
+(** Linux on 64-bit POWER (hash MMU, 64K base pages, RPN shift 30): a software
+    layout, transcribed from the kernel headers
+    (arch/powerpc/include/asm/book3s/64/{hash-64k,pgtable,hugetlb}.h of the
+    kernels that use PTE_RPN_SHIFT = 30).  Directory entries hold kernel
+    virtual addresses.  An entry is: none (0); a huge PTE (low two bits not
+    00) mapping the whole region of the entry; a huge-page directory (top bit
+    clear; bits 5:2 index the MMU page-size table) ; or a pointer to the
+    next-lower table (flag bits below the table's natural alignment ignored). *)
+Definition ppc64_mmu_pshift : list N := [12; 14; 16; 16; 18; 20; 22; 23; 24; 26; 28; 30; 34; 36].
+
+Definition dec_ppc64 (rpn_shift : N) (tgt : aspace) (fs : list N) (lvl : nat) (e va : N) : dec :=
+  if e =? 0 then DNotPresent else
+  match lvl with
+  | 1%nat => DTable tgt (w (e / 2^rpn_shift * 2^(nth 0 fs 0)))
+  | _ =>
+    if negb (bits 0 2 e =? 0) then DLeaf (w (e / 2^rpn_shift * 2^(nth 0 fs 0))) (lo fs lvl)
+    else if negb (bit 63 e) then
+      let sh := nth (N.to_nat (bits 2 4 e)) ppc64_mmu_pshift 0 in
+      if sh =? 0 then DInvalid
+      else DHugeDir KVADDR (bits 6 57 e * 2^6 + 2^63) sh
+    else
+      let k := 3 + nth (lvl - 1) fs 0 in
+      DTable KVADDR (bits k (64 - k) e * 2^k)
+  end.
+Definition af_ppc64_rpn30 := {| af_ptesz := 8; af_check := NoCheck; af_decode := dec_ppc64 30 |}.
+
 Definition arch_of (f : ptefmt) : option archfmt :=
   match f with
   | PTE_X86_64 => Some af_x86_64
@@ -255,7 +294,8 @@ Definition arch_of (f : ptefmt) : option archfmt :=
   | PTE_S390X => Some af_s390x
   | PTE_PFN32 => Some af_pfn32
   | PTE_PFN64 => Some af_pfn64
-  | PTE_NONE | PTE_RISCV32 | PTE_PPC64_LINUX_RPN30 => None
+  | PTE_PPC64_LINUX_RPN30 => Some af_ppc64_rpn30
+  | PTE_NONE | PTE_RISCV32 => None
   end.
 
 (** * The other method kinds (their definitions in addrxlat.h) *)
